@@ -128,7 +128,7 @@ PROPS["C18"] = {
                     "JSON / binary round trips (serde, bincode)", "type checking of operands, name resolution, IR compile panics that need whole-program reasoning (Jubjub constants without the jubjub chip, IntoBytes allocation from an unchecked length)"],
     "trusted_base": [],
     "assumptions": [],
-    "claim": "Thin, one clause only: ill-formed programs are rejected with an error instead of panicking, for the checks within reach. Every program decoder returns Ok only when each instruction passes check_arity; the arity table admits only input counts that cover every index the off-circuit and in-circuit parsers use and output counts equal to the number of values they produce; Arity::check is the documented predicate (full usize domain); IntoBytes(n) evaluates its length checks without panicking for every n (off-circuit Native branch, in-circuit BigUint tail); off-circuit ModExp guards the zero modulus; the in-circuit ModExp schedule returns the reduced power for every exponent, as the off-circuit modpow does (body slice of BigUintGadget::mod_exp over an abstract domain). The agreement between off-circuit evaluation and the compiled circuit -- the core of C18 -- is NOT decided.",
+    "claim": "Thin, one clause only: ill-formed programs are rejected with an error instead of panicking, for the checks within reach. Every program decoder returns Ok only when each instruction passes check_arity; the arity table admits only input counts that cover every index the off-circuit and in-circuit parsers use and output counts equal to the number of values they produce; Arity::check is the documented predicate (full usize domain); IntoBytes(n) evaluates its length checks without panicking for every n (off-circuit Native branch, in-circuit BigUint tail); off-circuit ModExp guards the zero modulus; the in-circuit ModExp schedule returns the reduced power for every exponent, as the off-circuit modpow does (body slice of BigUintGadget::mod_exp over an abstract domain); the operand-type tables of IsEqual / AssertEqual / AssertNotEqual are compared between the off-circuit parser and the in-circuit functions (they differ: three known findings, recorded in known_findings.json). The agreement between off-circuit evaluation and the compiled circuit -- the core of C18 -- is NOT decided.",
     "level_note": "Same units as the IR part of C16 (obligations tagged with both properties): PolyVC routing / table obligations, Kani slices. Trusted: the extraction scanner, PolyVC, Kani+CBMC; callee contracts of bincode / serde_json / check_arity atoms assumed.",
     "technique": "PolyVC Result-routing and table-consistency obligations + Kani contracts on sub-expression slices (contract-based deductive verification)",
     "design_ref": "DESIGN.md section 9.4 (fixes 12-14) and 9.2",
